@@ -617,14 +617,14 @@ def _run_rest(ck, tier, rng, T, meta, sinks, by_id, scratch):
             ck.violation("ep:%s:%s" % (o.ep, char_class(o.s)), "%s(%r): %s" % (o.ep, o.s, o.what),
                          {"entry_point": o.ep, "input": o.s, "impl_outcome": o.what, "read_back": o.got,
                           "model_outcome": "no template sink explains it (model gap or lxml-assigned value)"})
-    if diffs and not any(v["concrete"] for v in ck.violations) and not ck.known_hits:
+    if diffs and not any(v["concrete"] for v in ck.violations):
         kind, slot, sval, mo, io_ = first
         ck.violation("correspondence",
                      "model/Escape.v and the implementation (saxutils.escape + pptx.oxml.parse_xml) disagree on %d cases, e.g. %s %s %r: model=%s impl=%r" % (
                          diffs, kind, slot, sval, mo[:80], io_),
                      {"theorem_or_correspondence": "correspondence Escape.v ~ xml.sax.saxutils.escape / libxml2 slot parsing",
                       "input": [kind, slot, sval], "model_outcome": mo, "impl_outcome": repr(io_)}, concrete=False)
-    any_concrete = any(v["concrete"] for v in ck.violations) or bool(ck.known_hits)
+    any_concrete = any(v["concrete"] for v in ck.violations)
     ck.broken_build(oracle_found_concrete=any_concrete)
     caller = [s for s in sinks if s["origin"] == "caller text"]
     return ck.finish(
